@@ -150,6 +150,31 @@ def run(report):
     items += [(_enum_shard, ("sib2", i, ns, frac2, seed + 1)) for i in range(ns)]
     items += [(_enum_shard, ("chain3", i, ns, 0.004 if quick else 0.08, seed + 2)) for i in range(ns)]
     items += [(_drawn_shard, (env.sub_seed(report.seed, "C06", i), 120 if quick else 5000)) for i in range(env.NPROC)]
+    # host dimension: the symbol-table walk has version-specific paths
+    from .. import hosts
+    others = hosts.available_other_hosts()
+    cases = []
+    rng = random.Random(seed + 7)
+    for fam, frac in (("chain1", 1.0), ("chain2", 0.02 if quick else 0.2), ("sib2", 0.01 if quick else 0.1)):
+        gen = {"chain1": scope.trees_chain1, "chain2": scope.trees_chain2, "sib2": scope.trees_sib2}[fam]
+        for i, tree in enumerate(gen()):
+            if frac < 1.0 and rng.random() >= frac:
+                continue
+            if cpython_inlining_bug_shape(tree):
+                continue
+            for init in (True, False):
+                src = scope.render(tree, init)
+                try:
+                    compile(src, "<scope>", "exec")
+                except SyntaxError:
+                    continue
+                cases.append((src, [env.ALL_CFGS[(i + init) % 8]]))
+    nchunk = 5
+    for h in others:
+        for k in range(nchunk):
+            items.append((hosts.host_shard, (h, cases[k::nchunk], {}, "name resolution differs")))
+    report.extra["other_hosts"] = others
+    report.extra["host_cases_per_host"] = len(cases)
     for part in env.pmap(_call, items):
         report.absorb(part)
     report.exhaustive = True
